@@ -101,7 +101,7 @@ func failedBuilds(t *rapid.T) string {
 	for i := 0; i < n; i++ {
 		bad := NewStore()
 		k := rapid.IntRange(1, 4).Draw(t, "failAt")
-		bad.FaultKind = genFaultKind(t)
+		bad.FaultKind = genWriteFaultKind(t)
 		stage := rapid.SampledFrom([]string{"open", "write", "write-partial", "write-partial", "commit"}).Draw(t, "failStage")
 		switch stage {
 		case "open":
